@@ -79,18 +79,20 @@ def alpha_hash(smt2: str) -> str:
     return hashlib.sha256(("\n".join(decls) + "\n" + body2).encode()).hexdigest()[:20]
 
 
-def _z3_py(smt2, timeout_ms, seed=0):
+def _z3_py(smt2, timeout_ms, seed=0, opts=None, tag="", simple=False):
     t0 = time.time()
     ctx = z3.Context()
-    s = z3.Solver(ctx=ctx)
+    s = z3.SimpleSolver(ctx=ctx) if simple else z3.Solver(ctx=ctx)
     s.set("timeout", int(timeout_ms))
     s.set("random_seed", seed)
+    for k, v in (opts or {}).items():
+        s.set(k, v)
     try:
         s.from_string(smt2)
         r = s.check()
     except z3.Z3Exception as e:
         return {"result": "error", "reason": str(e)[:300], "time": time.time() - t0, "solver": "z3py"}
-    out = {"result": str(r), "time": time.time() - t0, "solver": "z3-5.1(py)"}
+    out = {"result": str(r), "time": time.time() - t0, "solver": "z3-5.1(py)" + tag}
     if r == z3.sat:
         m = s.model()
         model = {}
@@ -163,18 +165,26 @@ def solve_task(task):
         r = _z3_py(smt2, timeout_ms)
         r["key"], r["attempts"], r["total_time"] = key, [(r["solver"], r["result"], round(r["time"], 3))], r["time"]
         return r
-    r = _z3_py(smt2, timeout_ms)
-    attempts.append(r)
-    if r["result"] in ("unknown", "error") and portfolio:
-        r2 = _z3_py(smt2, timeout_ms, seed=7)
-        attempts.append(r2)
-        if r2["result"] in ("unknown", "error"):
-            t = max(5, timeout_ms // 3000)
-            r3 = _cli(["/usr/bin/cvc5", "--lang=smt2", f"--tlimit={t * 1000}"], "(set-logic ALL)\n" + smt2, t, "cvc5-1.0.3")
-            attempts.append(r3)
-            if r3["result"] in ("unknown", "error"):
-                r4 = _cli(["/usr/bin/z3", f"-T:{t}"], smt2, t, "z3-4.8.12")
-                attempts.append(r4)
+    # portfolio: a short z3 run (most VCs take milliseconds), cvc5, then longer z3 runs with
+    # other seeds, then the old z3; first definite answer wins
+    t = max(2, timeout_ms // 1000)
+    plan = [
+        lambda: _z3_py(smt2, min(timeout_ms, 4000)),
+        # E-matching only (no model-based quantifier instantiation): `unsat` is as sound as ever
+        lambda: _z3_py(smt2, min(timeout_ms, 10000), opts={"smt.mbqi": False}, tag="[smt,mbqi=off]", simple=True),
+        lambda: _z3_py(smt2, min(timeout_ms, 10000), tag="[smt]", simple=True),
+        lambda: _cli(["/usr/bin/cvc5", "--lang=smt2", f"--tlimit={min(t, 8) * 1000}"], "(set-logic ALL)\n" + smt2, min(t, 8), "cvc5-1.0.3"),
+        # products of variables as uninterpreted terms: `unsat` is still sound
+        lambda: _z3_py(smt2, min(timeout_ms, 10000), opts={"smt.arith.nl": False}, tag="[smt,nl=off]", simple=True),
+        lambda: _z3_py(smt2, timeout_ms // 2, seed=7),
+        lambda: _z3_py(smt2, timeout_ms, seed=13),
+        lambda: _cli(["/usr/bin/z3", f"-T:{min(t, 10)}"], smt2, min(t, 10), "z3-4.8.12"),
+    ]
+    for step in plan if portfolio else plan[:1]:
+        r = step()
+        attempts.append(r)
+        if r["result"] in ("sat", "unsat"):
+            break
     if all(a["result"] in ("unknown", "error") for a in attempts):
         c = _candidate(smt2, min(timeout_ms, 10000))
         if c is not None:
